@@ -247,7 +247,7 @@ PROPS['C15'] = {
     'assumptions': [".pc (quilt metadata) is outside the claim: applied-patches is appended in place by design"],
 }
 PROPS['C16'] = {
-    'theorems': ['RQ.C16_strip_components', 'RQ.C16_comment_ignored', 'RQ.C16_default_strip', 'RQ.C16_choose_is_name', 'RQ.C16_choose_old_iff'],
+    'theorems': ['RQ.C16_strip_components', 'RQ.C16_no_cur', 'RQ.C16_no_alias', 'RQ.C16_comment_ignored', 'RQ.C16_default_strip', 'RQ.C16_choose_is_name', 'RQ.C16_choose_old_iff'],
     'verdict': 'SPEC',
     'jobs': push_jobs(['inv=2'], ['inv=3']) + [{'quick': ['series', 'seed={seed}', 'n=30000'], 'thorough': ['series', 'seed={seed}', 'n=600000']},
                                                {'quick': ['path', 'seed={seed}', 'n=20000', 'pieces=3'], 'thorough': ['path', 'seed={seed}', 'n=400000', 'pieces=4']}],
@@ -459,8 +459,9 @@ PROPS['C06'] = {
 
 
 PROPS['C01'] = {
-    'theorems': ['RQ.C01_lines_roundtrip', 'RQ.C01_lines_shape', 'RQ.C01_forward', 'RQ.C01_reverse', 'RQ.Write.C01_parse_plain'],
-    'extra_modules': ['RQ.Props.C01Text'],
+    'theorems': ['RQ.C01_lines_roundtrip', 'RQ.C01_lines_shape', 'RQ.C01_forward', 'RQ.C01_reverse', 'RQ.Write.C01_parse_plain',
+                 'RQ.C01_diff_valid', 'RQ.C01_diff_valid_script', 'RQ.C01_diff_applies', 'RQ.C01_diff_applies_rev'],
+    'extra_modules': ['RQ.Props.C01Text', 'RQ.Props.C01Diff'],
     'verdict': 'C01',
     'jobs': [{'quick': ['diff', 'seed={seed}', 'n=40000', 'cli=4'], 'thorough': ['diff', 'seed={seed}', 'n=1000000', 'cli=4']}],
     'nontrivial': lambda l: l.split('|')[6].count('4040202d') >= 1,
